@@ -20,17 +20,17 @@ func isFSMutator(n string) bool {
 }
 
 var c17MutatorOwners = ExcTable{
-	"pkg/api.rebuildImpl$1 io/ioutil.WriteFile":                          "the build's output writer (gated by C17/R2)",
-	"pkg/api.rebuildImpl$2 os.Remove":                                    "deletion of stale outputs of the previous build of the same context (provenance: C17/R3)",
-	"fs.mkdirAll os.Mkdir":                                               "creates missing output directories; called only from the three writers (rebuildImpl, CLI metafile, CLI mangle cache)",
-	"pkg/cli.runImpl$1 io/ioutil.WriteFile":                              "CLI --metafile=<path>: written only when the build returned a metafile (no errors)",
-	"pkg/cli.runImpl$2 io/ioutil.WriteFile":                              "CLI --mangle-cache=<path>: written only when the build returned a mangle cache (no errors)",
-	"cmd/esbuild.createCpuprofileFile os.Create":                         "CLI --cpuprofile=<path> (explicit debugging flag)",
-	"cmd/esbuild.createHeapFile os.Create":                               "CLI --heap=<path> (explicit debugging flag)",
-	"cmd/esbuild.createTraceFile os.Create":                              "CLI --trace=<path> (explicit debugging flag)",
+	"pkg/api.rebuildImpl$1 io/ioutil.WriteFile":                             "the build's output writer (gated by C17/R2)",
+	"pkg/api.rebuildImpl$2 os.Remove":                                       "deletion of stale outputs of the previous build of the same context (provenance: C17/R3)",
+	"fs.mkdirAll os.Mkdir":                                                  "creates missing output directories; called only from the three writers (rebuildImpl, CLI metafile, CLI mangle cache)",
+	"pkg/cli.runImpl$1 io/ioutil.WriteFile":                                 "CLI --metafile=<path>: written only when the build returned a metafile (no errors)",
+	"pkg/cli.runImpl$2 io/ioutil.WriteFile":                                 "CLI --mangle-cache=<path>: written only when the build returned a mangle cache (no errors)",
+	"cmd/esbuild.createCpuprofileFile os.Create":                            "CLI --cpuprofile=<path> (explicit debugging flag)",
+	"cmd/esbuild.createHeapFile os.Create":                                  "CLI --heap=<path> (explicit debugging flag)",
+	"cmd/esbuild.createTraceFile os.Create":                                 "CLI --trace=<path> (explicit debugging flag)",
 	"cmd/esbuild.(*serviceType).handleTransformRequest io/ioutil.WriteFile": "stdio protocol for large transforms: writes <inputFS>.code/.map next to the temp file the JS client created, only when the client asked for it (outputFS)",
-	"cmd/esbuild.(*serviceType).handleTransformRequest os.Remove":        "stdio protocol for large transforms: removes the temp input file the JS client created and named in the request",
-	"logger.writeStringWithColor (*os.File).WriteString":                 "terminal output; the only callers pass os.Stderr",
+	"cmd/esbuild.(*serviceType).handleTransformRequest os.Remove":           "stdio protocol for large transforms: removes the temp input file the JS client created and named in the request",
+	"logger.writeStringWithColor (*os.File).WriteString":                    "terminal output; the only callers pass os.Stderr",
 }
 
 // receiverIsStdStream: the *os.File receiver is loaded from the global os.Stdout / os.Stderr.
@@ -49,7 +49,7 @@ func receiverIsStdStream(c ssa.CallInstruction) bool {
 
 func init() {
 	register(&Property{
-		ID: "C17",
+		ID:          "C17",
 		Explanation: "Decides structural necessary conditions of 'builds never clobber inputs; failed builds write nothing' on every path: R1 file-mutating calls of the standard library exist only at the reviewed owner sites (nothing in bundler, linker, resolver, cache, parsers or printers can touch the file system); R2 the build's WriteFile/MkdirAll are dominated by 'no errors' (shouldWriteFiles = !log.HasErrors(), computed after Compile and the cancel check), by args.write and by not-stdout; stdout output and result.Metafile/MangleCache are set only without errors; R3 the argument of os.Remove comes only from keys of the previous build's own hash table that are absent from the new one, and that table is only ever assigned from rebuildImpl's result; R4 Compile runs the input-collision check on every path that returns output files unless AllowOverwrite/WriteToStdout, both sides canonicalised by the same function, and AllowOverwrite is forced on only when not writing. R4 also decides that every file-namespace input is inserted into the input-path set unconditionally (no filter between the gates and the insert). R5 options-after-plugins: direct copies of BuildOptions fields into rebuildArgs are loaded after loadPlugins returned (one reviewed exception: the working directory). R6 skipped-write-is-verified (shared with C20/R10). R7 dotdot-scan-covers-last-segment: the string scanned for leading ../ segments has a separator appended, or a bare .. is tested. NOT covered: path arithmetic (whether a name template escapes outdir), symlink/case aliasing on a real file system, user-chosen --metafile/--mangle-cache paths.",
 		Run: func(p *Prog, tier string) []*RuleResult {
 			return []*RuleResult{c17Mutators(p), c17WriteGate(p), c17DeleteProvenance(p), c17OverwriteCheck(p), c17OptionsAfterPlugins(p), skippedWriteVerified(p, "C17/R6 skipped-write-is-verified"), c17DotDotScan(p)}
